@@ -324,7 +324,7 @@ func cmdCheck(args []string) int {
 	}
 	t0 := time.Now()
 	evDir := "evidence"
-	if os.Getenv("VERIF_REPO") != "" {
+	if os.Getenv("VERIF_REPO") != "" || os.Getenv("VERIF_EVIDENCE_SCRATCH") != "" {
 		evDir = "evidence_scratch" // runs against a scratch worktree never touch the registered evidence
 	}
 	evPath := filepath.Join(verifDir, evDir, prop+".json")
